@@ -19,11 +19,14 @@ def check(ctx, src):
     comp = compq.Compiler(src)
     rq = comp.rm.func("compile_require")
     ctx.require(rq is not None, "compile_require not found")
-    arm = pyq.contains(rq, lambda n: isinstance(n, ast.If) and "require(module_name, compiler.module" in flat(n.test))
+    arm = pyq.contains(rq, lambda n: isinstance(n, ast.If) and pyq.contains(n.test, lambda c: isinstance(c, ast.Call) and dotted(c.func) == "require" and len(c.args) >= 2 and norm(c.args[1]) == "compiler.module") is not None)
     ctx.need(arm is not None, "compile_require: module-level arm not found")
     ct = pyq.contains(arm.test, lambda n: isinstance(n, ast.Call) and dotted(n.func) == "require")
     kw = {k.arg: norm(k.value) for k in ct.keywords}
-    ctx.check(norm(ct.args[0]) == "module_name" and kw.get("assignments") == "assignments" and kw.get("prefix") == "prefix", "REQ-MIRROR", f"{R}|compile_require|compile-time call", f"compile-time require is called with {norm(ct)[:100]}", R, ct.lineno, detail="module_name, assignments, prefix")
+    mnv = ct.args[0].id if isinstance(ct.args[0], ast.Name) else None
+    asv = next((k.value.id for k in ct.keywords if k.arg == "assignments" and isinstance(k.value, ast.Name)), None)
+    pfv = next((k.value.id for k in ct.keywords if k.arg == "prefix" and isinstance(k.value, ast.Name)), None)
+    ctx.check(mnv is not None and asv is not None and pfv is not None, "REQ-MIRROR", f"{R}|compile_require|compile-time call", f"compile-time require is called with {norm(ct)[:100]}", R, ct.lineno, detail="module_name, assignments, prefix")
     t = flat(arm.body[0])
     pieces = ["dotted('hy.macros.require'), String(module_name), Symbol('None'), Keyword('target_module_name'), String(compiler.module.__name__)",
               "Keyword('assignments'), String('EXPORTS') if assignments == 'EXPORTS' else List([List([String(k), String(v)]) for k, v in assignments])",
